@@ -5,6 +5,7 @@ CONSTANTS
   Carol = {"c1", "c2", "c4"}
   SmallBw = {"c2"}
   PolNames = {"PA"}
+  Heights = {100}
   HtlcNames = {"H1"}
-INVARIANTS EnvAsModel RegAsModel LinkEnforcesAdvertised Decided HandedOnlyIfAdvertisedAccepts FailedOnlyIfNoLinkAccepts FailureNamesViolatedRule UnknownNextPeerOnlyIf DecisionAsAdvertised
+INVARIANTS EnvAsModel HeightIsCurrent RegAsModel LinkEnforcesAdvertised Decided HandedOnlyIfAdvertisedAccepts FailedOnlyIfNoLinkAccepts FailureNamesViolatedRule UnknownNextPeerOnlyIf DecisionAsAdvertised
 CHECK_DEADLOCK TRUE
